@@ -12,9 +12,30 @@ import argparse, glob, hashlib, json, os, shutil, struct, subprocess, sys, time
 
 VERIF = os.path.dirname(os.path.abspath(__file__))
 REPO = os.environ.get("VERIF_REPO", "/repo")
+# VERIF_WORK redirects every output (binaries, shard output, evidence, replays) and, when the
+# repository under test is not /repo, a private copy of the harness whose go.mod points at it.
+# Used only for trying the checks on scratch copies of the repository (seeded changes); the
+# registered commands never set it.
+WORK = os.environ.get("VERIF_WORK", VERIF)
 HARNESS = os.path.join(VERIF, "harness")
-BIN = os.path.join(VERIF, "bin")
-OUT = os.path.join(VERIF, "out")
+BIN = os.path.join(WORK, "bin")
+OUT = os.path.join(WORK, "out")
+EVID = os.path.join(WORK, "evidence")
+REPL = os.path.join(WORK, "replays")
+
+
+def prepare_harness():
+    """Returns the harness directory to build from (a private copy when REPO is not /repo)."""
+    global HARNESS
+    if os.path.realpath(REPO) == "/repo" and WORK == VERIF:
+        return
+    dst = os.path.join(WORK, "harness")
+    if os.path.isdir(dst):
+        shutil.rmtree(dst)
+    shutil.copytree(os.environ.get("VERIF_HARNESS_SRC", os.path.join(VERIF, "harness")), dst)
+    gm = open(os.path.join(dst, "go.mod")).read().replace("=> /repo", "=> " + os.path.realpath(REPO))
+    open(os.path.join(dst, "go.mod"), "w").write(gm)
+    HARNESS = dst
 TOOLCHAIN = "/root/go/pkg/mod/golang.org/toolchain@v0.0.1-go1.24.12.linux-amd64/bin"
 
 # per-property settings: race build, shard count, per-shard wall limit (s)
@@ -48,6 +69,7 @@ def goenv():
 def build(race=False):
     """Rebuild the worker against /repo's current working tree. Returns (path, None) or (None, err)."""
     os.makedirs(BIN, exist_ok=True)
+    prepare_harness()
     shutil.copyfile(os.path.join(REPO, "go.sum"), os.path.join(HARNESS, "go.sum"))
     # census of the exported API of the working tree (types, functions), regenerated every build
     p = subprocess.run(["go", "run", "./cmd/census", REPO, os.path.join(HARNESS, "lib", "census_gen.go")], cwd=HARNESS,
@@ -66,7 +88,7 @@ def build(race=False):
 
 
 def load_known():
-    path = os.path.join(VERIF, "known_findings.json")
+    path = os.environ.get("VERIF_KNOWN_SRC", os.path.join(VERIF, "known_findings.json"))
     if not os.path.exists(path):
         return []
     return json.load(open(path)).get("findings", [])
@@ -115,7 +137,7 @@ def run_shards(worker, prop, tier, seed, nshards, outdir, limit, extra_env=None,
     procs = []
     env = goenv()
     env.pop("GOFLAGS", None)
-    env["VERIF_KNOWN"] = os.path.join(VERIF, "known_findings.json")
+    env["VERIF_KNOWN"] = os.environ.get("VERIF_KNOWN_SRC", os.path.join(VERIF, "known_findings.json"))
     if extra_env:
         env.update(extra_env)
     for i in range(nshards):
@@ -164,7 +186,7 @@ def check(prop, tier, seed, nshards):
     if tier == "thorough" and cfg.get("race_in_thorough"):
         builds.append(("race", True))
     known = load_known()
-    evidence_path = os.path.join(VERIF, "evidence", f"{prop}.json")
+    evidence_path = os.path.join(EVID, f"{prop}.json")
     os.makedirs(os.path.dirname(evidence_path), exist_ok=True)
     try:
         os.remove(evidence_path)
@@ -259,7 +281,7 @@ def check(prop, tier, seed, nshards):
             new.append(v)
     # a violation belonging to another property (C04 panics seen by C01, ...) is reported under its own id
     replay_paths = []
-    os.makedirs(os.path.join(VERIF, "replays"), exist_ok=True)
+    os.makedirs(REPL, exist_ok=True)
     seen = set()
     for v in new:
         key = (v["property"], v["site"], v["clause"], json.dumps(v.get("shape"), sort_keys=True))
@@ -267,7 +289,7 @@ def check(prop, tier, seed, nshards):
             continue
         seen.add(key)
         h = hashlib.sha256(json.dumps(v, sort_keys=True).encode()).hexdigest()[:12]
-        path = os.path.join(VERIF, "replays", f"{prop}-{h}.json")
+        path = os.path.join(REPL, f"{prop}-{h}.json")
         v2 = dict(v); v2["checked_by"] = prop
         json.dump(v2, open(path, "w"), indent=1)
         replay_paths.append((v, path))
@@ -375,7 +397,8 @@ def write_evidence(prop, tier, seed, m, nviol, wall, known_matched, notes, incon
         cov["exhaustive_sweeps"] = m["exhaustive"]
     ev = {"property_id": prop, "tier": tier, "seed": int(seed), "level": "exploration", "coverage": cov,
           "assumptions": ASSUMPTIONS.get(prop, []) + COMMON_ASSUMPTIONS, "wall_s": round(wall, 2), "violations": int(nviol)}
-    json.dump(ev, open(os.path.join(VERIF, "evidence", f"{prop}.json"), "w"), indent=1, default=str)
+    os.makedirs(EVID, exist_ok=True)
+    json.dump(ev, open(os.path.join(EVID, f"{prop}.json"), "w"), indent=1, default=str)
 
 
 COMMON_ASSUMPTIONS = [
